@@ -62,7 +62,7 @@ def crash_violation(ctx, kind, crash, label):
                       f"{kind} decoder died on a byte string: {crash['kind']} in {crash['site']}", wit)
 
 
-def run_ops(ctx, jobs):
+def run_ops(ctx, jobs, cfg="san"):
     """jobs: list of (kind, opdict, label, nontrivial_all).  Resumes an op after a death."""
     pending = list(jobs)
     rounds = 0
@@ -97,7 +97,7 @@ def run_ops(ctx, jobs):
                 return
             summarise(ctx, kind, ev["ret"], label, nt)
 
-        runner.run_cases(cases, cfg="san", on_result=on_result, chunk=1, stall_timeout=90)
+        runner.run_cases(cases, cfg=cfg, on_result=on_result, chunk=1, stall_timeout=90)
         pending = nxt
     if pending:
         ctx.fail_harness("too many process deaths; %d ops unfinished" % len(pending))
@@ -336,6 +336,25 @@ def run(ctx):
                         "the logical termination bound is 100000 inflate() calls per input; wall-clock is only a 90 s backstop",
                         "allocation failures are injected at C++ operator new only (zlib's own malloc is not failed)"]
     run_ops(ctx, jobs)
+    # small thread stacks: valid blobs of every kind (among them payloads of 64 KiB .. 1 MiB, whose length prefix a decoder might take
+    # as a licence for a big local buffer) decoded on a thread with 160 KiB of stack in the plain build and 768 KiB in the sanitizer
+    # build (instrumented frames are larger) - the stacks musl and macOS give secondary threads are of that order
+    small = []
+    bigpay = [wrap(bytes(65536)), wrap(ctx.rng.randbytes(70000)), wrap(bytes(300000)), wrap(ctx.rng.randbytes(1 << 20)), wrap(bytes(65535))]
+    for kind in ENTRY:
+        ins = [b for b in seeds.get(kind, []) if len(b) <= 3000][:6]
+        if kind == "zlib" or COMPRESSED[kind]:
+            ins += bigpay
+        if kind in ("v2_track_data", "v2_overview", "v2_beat_data", "v2_quick_cues"):
+            for v in small_values(ctx.rng, kind, 1):
+                for nx in (70000, 1 << 20):
+                    try:
+                        ins.append(ENC[kind](dict(v, extra=ctx.rng.randbytes(nx).hex())))
+                    except Exception:
+                        pass
+        small.append((kind, ins))
+    run_ops(ctx, [(k, dict(many_op(k, ins, False), stack_kb=160), "small-stack-160K", True) for k, ins in small], cfg="plain")
+    run_ops(ctx, [(k, dict(many_op(k, ins, False), stack_kb=768), "small-stack-768K", True) for k, ins in small], cfg="san")
     # libFuzzer stage
     from .. import fuzz
     fuzz.run_stage(ctx, seeds)
